@@ -65,5 +65,7 @@ CONTRACTS = nary(2) + nary(3) + [
         spec_args={"choice": "int", "term": "bool"},
         inv="s.choice >= -1 and s.choice <= 1 and (choice[0] is None) == (s.choice == -1) and (choice[0] == 'L') == (s.choice == 0) "
             "and (choice[0] == 'R') == (s.choice == 1)",
+        # K7: the choice is made under the lock, the winner then forwards outside it under `choice[0] == <its side>`
+        exclusive={"left_source": "choice[0] == 'L'", "right_source": "choice[0] == 'R'"},
     ),
 ]
